@@ -400,6 +400,22 @@ def hidden_state_scan(module, qualname, inlined):
                 mutable.add(name)
             elif isinstance(val, ast.Call) and isinstance(val.func, ast.Name) and val.func.id in _MUTABLE_CALLS:
                 mutable.add(name)
+        # a module-level container that no code of the module ever mutates is a constant table, not state
+        mutated = set()
+        MUT = {"append", "extend", "insert", "pop", "remove", "clear", "update", "setdefault", "popitem", "add", "discard", "sort", "reverse"}
+        for n in ast.walk(m.tree):
+            if isinstance(n, (ast.Assign, ast.AugAssign, ast.Delete)):
+                tg = n.targets if not isinstance(n, ast.AugAssign) else [n.target]
+                for t in tg:
+                    if isinstance(t, ast.Subscript) and isinstance(t.value, ast.Name):
+                        mutated.add(t.value.id)
+                    if isinstance(n, ast.AugAssign) and isinstance(t, ast.Name):
+                        mutated.add(t.id)
+            elif isinstance(n, ast.Call) and isinstance(n.func, ast.Attribute) and isinstance(n.func.value, ast.Name) and n.func.attr in MUT:
+                mutated.add(n.func.value.id)
+            elif isinstance(n, ast.Global):
+                mutated.update(n.names)
+        mutable &= mutated
         local = {a.arg for a in node.args.args + node.args.kwonlyargs + node.args.posonlyargs}
         for n in ast.walk(node):
             if isinstance(n, ast.Name) and isinstance(n.ctx, ast.Store):
